@@ -2,18 +2,21 @@
 ASSUMPTIONS = ["nodes are static objects (identity = index); release/clone are separate heap harnesses",
                "node_insert.c is compiled by textual inclusion with mpt_gnode_pos routed through an unprototyped adapter (CBMC needs identical function-pointer types)"]
 UNITS = ["mptcore/node/%s.c" % f for f in "gnode_after gnode_before gnode_pos node_unlink gnode_swap gnode_relink node_locate node_move".split()] + ["mptcore/misc/identifier.c"]
-OPS = ["UNLINK", "GNODE_ADD", "GNODE_INSERT", "AFTER", "BEFORE", "SWAP", "NODE_ADD", "NODE_INSERT", "LOCATE", "POS", "MOVE"]
+OPS = ["UNLINK", "GNODE_ADD", "GNODE_INSERT", "AFTER", "BEFORE", "SWAP", "NODE_ADD", "NODE_INSERT", "LOCATE", "POS"]
+OPS_THOROUGH = ["MOVE"]
 
 
 def queries(tier):
     nn = 4
     qs = []
-    for op in OPS:
+    for op in OPS + (OPS_THOROUGH if tier == "thorough" else []):
+        nn = 3 if (tier == "quick" and op in ("SWAP", "MOVE", "NODE_ADD", "NODE_INSERT", "GNODE_ADD")) else 4
         qs.append(Q("node_" + op.lower(), "C14/nodes.c", units=UNITS,
                     harness_defines={"OP": "OP_" + op, "NN": nn, "V_NMAX": 96},
-                    defines={}, unwind_default=nn + 3, flags=["--memory-leak-check"],
+                    defines={}, unwind_default=nn + 3, flags=["--memory-leak-check", "--max-field-sensitivity-array-size", "200"],
                     fp=[(r"getnode", ["verif_gnode_pos_u", "node_locate"])],
-                    stubs=["libc.c", "no_traits.c"],
+                    stubs=["libc.c", "no_traits.c", "libc_loops.c"],
+                    unwind={"memcpy": 14, "memset": 14, "memmove": 14, "strlen": 4, "shape": 6, "names": 6},
                     bounds="%d nodes in every well-formed forest shape (links symbolic), names from {a,b,''}; one %s with position -3..3" % (nn, op),
                     outside="more than %d nodes; histories" % nn))
     return qs
